@@ -400,6 +400,7 @@ class SpecEnv(object):
         in_sys_modules = U("in_sys_modules", Val, Bool)
         in_sys_modules_at = U("in_sys_modules_at", Val, Int, Bool)
         sys_module = U("sys_module", Val, Val)
+        truthy_obj = U("truthy_obj", Val, Bool)
         module_attr = U("module_attr", Val, Val, Val)
         is_exception_class = U("is_exception_class", Val, Bool)
         is_generic_exception_class = U("is_generic_exception_class", Val, Bool)
@@ -634,6 +635,40 @@ class SpecEnv(object):
             return SVal(z3.If(Val.is_VBytes(z), b, t))
         P["upper_of"] = lambda ctx, v: p_case_of(ctx, "upper", v)
         P["lower_of"] = lambda ctx, v: p_case_of(ctx, "lower", v)
+        def p_conns_truthy(ctx, d):
+            """class invariant of fd_to_conn: what is stored under a descriptor is a connection object (a truthy heap object)"""
+            m, h = ctx.engine.heap_get(ctx.st, d, "map").z, ctx.engine.heap_get(ctx.st, d, "has").z
+            q = z3.Const("q!fd", Val)
+            c = z3.Select(m, q)
+            return b2v(z3.ForAll([q], z3.Implies(z3.Select(h, q), z3.And(Val.is_VRef(c), ops.vtruth(Val.oid(c)))),
+                                 patterns=[z3.Select(h, q)]))
+        P["conns_truthy"] = p_conns_truthy
+
+        def p_shutdown_attempted_on(ctx, sock):
+            """the trace holds a read of the `shutdown` attribute of exactly this socket object (followed by its call unless the read
+            itself failed)"""
+            tr = ctx.st.trace
+            alts = []
+            for i, e in enumerate(tr):
+                if e[0] == "GetAttr":
+                    if isinstance(e[3], str) or any(c[0] == "Call" and z3.is_expr(c[1]) and z3.eq(c[1], e[3]) for c in tr[i + 1:]):
+                        alts.append(z3.And(e[1] == to_val(sock), e[2] == Val.VStr(seq_lit("shutdown"))))
+            return b2v(z3.Or(alts)) if alts else False
+        P["shutdown_attempted_on"] = p_shutdown_attempted_on
+
+        def p_all_keys_in(ctx, d, l):
+            """every key the dict still has occurs in the list l"""
+            h = ctx.engine.heap_get(ctx.st, d, "has").z
+            q = z3.Const("q!k", Val)
+            lz = self.to_sort(l, "vl")
+            mem = self.recs["member"].z
+            # the definition of `member`, for every element (the unfoldings emitted elsewhere are for particular terms only)
+            x, hd_, tl_ = z3.Const("q!x", Val), z3.Const("q!h", Val), z3.Const("q!t", VL)
+            self.fact(z3.ForAll([x, hd_, tl_], mem(x, VL.cons(hd_, tl_)) == z3.Or(x == hd_, mem(x, tl_)),
+                                patterns=[mem(x, VL.cons(hd_, tl_))]))
+            self.fact(z3.ForAll([x], z3.Not(mem(x, VL.nil)), patterns=[mem(x, VL.nil)]))
+            return b2v(z3.ForAll([q], z3.Implies(z3.Select(h, q), mem(q, lz)), patterns=[z3.Select(h, q)]))
+        P["all_keys_in"] = p_all_keys_in
         P["generic_cache_ok"] = p_generic_cache_ok
         P["module_global"] = lambda ctx, modname, name: ctx.engine.global_obj(modname, name)
         P["tuple_of"] = lambda ctx, v: SVal(seq_of(z3.IntVal(0), to_val(v)))
